@@ -194,6 +194,19 @@ Section VEnc.
       obind (open_slots ch l 0%nat) (fun os =>
       Val {| vp_seed := seed; vp_slots := slots; vp_opens := os; vp_sp := sp |})).
 
+  (** The public entry point takes [Option<usize>]: the range test happens on the caller's value at its full width,
+      before anything is allocated or narrowed.  [encrypt_with_proof] above is the same function on the parameters
+      that are small enough to be written as a nat (Proofs/VEncCore.v: encrypt_usize_nat); this one is what the
+      correspondence runs, with parameters up to 2^64-1. *)
+  Definition encrypt_with_proof_usize (x : Z) (pk : PK) (label : list N) (sp_opt : option N)
+             (seed : list N) (tape : nat -> Z) : outcome vproof :=
+    match sp_opt with
+    | None => encrypt_with_proof x pk label None seed tape
+    | Some s =>
+      if ((s <? N.of_nat SEC_PARAM) || (256 <? s))%N then Err E_INVALID_SIZE
+      else encrypt_with_proof x pk label (Some (N.to_nat s)) seed tape
+    end.
+
   (** one iteration of the loop of [verify] *)
   Definition verify_slot (Q : G) (pk : PK) (label seed ch : list N) (i : nat) (pr : slot) (s : Z)
     : outcome unit :=
@@ -357,6 +370,10 @@ Definition W_challenge (W : venc_world) (Q : w_G W) (label : list N) (slots : li
 Definition W_encrypt (W : venc_world) (x : Z) (pk : w_PK W) (label : list N) (sp : option nat)
            (seed : list N) (tape : nat -> Z) : outcome vproof :=
   encrypt_with_proof (w_G W) (w_O W) (w_q W) (w_repr W) (w_sha256 W) (w_PK W) (w_pk_n W) (w_rsa_enc W)
+                     x pk label sp seed tape.
+Definition W_encrypt_usize (W : venc_world) (x : Z) (pk : w_PK W) (label : list N) (sp : option N)
+           (seed : list N) (tape : nat -> Z) : outcome vproof :=
+  encrypt_with_proof_usize (w_G W) (w_O W) (w_q W) (w_repr W) (w_sha256 W) (w_PK W) (w_pk_n W) (w_rsa_enc W)
                      x pk label sp seed tape.
 Definition W_verify (W : venc_world) (p : vproof) (Q : w_G W) (pk : w_PK W) (label : list N) : outcome unit :=
   verify (w_G W) (w_O W) (w_repr W) (w_sha256 W) (w_PK W) (w_pk_n W) (w_rsa_enc W) p Q pk label.
